@@ -71,7 +71,18 @@ PROPERTIES = {
                 "context.DeadlineExceeded, and os.SyscallError / net.OpError wrappers of them) with every later Write of the "
                 "call succeeding - one Write, no interceptor, the error returned (C07_transmit_cases holds for every error "
                 "value); 2..8 goroutines on ONE shared Transmitter whose connection holds every Write until all are "
-                "pending - each pending Write carries its own frame (C lines).",
+                "pending - each pending Write carries its own frame (C lines). CONNECTION GLUE under the Receiver/Transmitter: "
+                "every 4th read script (and every error-injection script) also runs on a Receiver over the REAL fileConn "
+                "(fileconn.go, the net.Conn behind Dial(\"can\"); reached through an export file overlaid into package "
+                "socketcan) whose file is the scripted reader (SF lines), every 3rd transmit sequence on a Transmitter over "
+                "fileConn on the fake conn (XF lines): the wrapper must be transparent - same (n, err) sequence, errors as "
+                "*net.OpError of the right operation and network around the file's error with one *os.PathError level "
+                "removed (kinds compared, not texts) - so the unchanged model applies to the logged file reads. U lines: a "
+                "Transmitter and a Receiver on ONE shared connection of every kind Dial returns - fileConn on a fake duplex "
+                "file (transmit faults / deadlines interleaved with scripted reads; the file must see SetWriteDeadline and "
+                "Write only), the real Dial(\"udp\") multicast transceiver, real Dial(\"tcp\") and Dial(\"unix\") "
+                "connections to an echoing loopback peer: every frame sent comes back decoded, and a transmit deadline that "
+                "has passed does not end reception.",
         "note": _NOTE + "bufio.Scanner is modelled, not verified (oracle, DESIGN.md section 3): buffer shifting/doubling is "
                         "abstracted as re-segmentation of reads, a reader violating 0 <= n <= len(p) is not modelled. "
                         "TransmitFrame discards the byte count returned by Write: model = code, so a Write answering "
@@ -85,7 +96,15 @@ PROPERTIES = {
                         "sampled schedules (sequential interleavings in one goroutine; concurrent use of different "
                         "receivers is not exercised), not proved. Receiver.Close only forwards to the connection; what "
                         "the connection answers to reads after Close (the harness: keeps serving, or an error) is part "
-                        "of the logged read list the model consumes.",
+                        "of the logged read list the model consumes. Connection kinds exercised in this sandbox: can "
+                        "(fileConn, on a fake file - no CAN interface here, dialRaw itself is not run), udp (real multicast "
+                        "transceiver via Dial, works offline here), tcp and unix (real loopback sockets); if a kind cannot be "
+                        "set up the harness skips its U lines and says so on stderr (the kind counts U-udp/U-tcp/U-unix in the "
+                        "evidence show what ran). The glue is observed, not modelled: fileConn/udpTxRx have no Gallina model, "
+                        "the claim checked is transparency with respect to the Receiver/Transmitter models. The shared-"
+                        "connection scenarios never transmit without a deadline after a call with one (TransmitFrame leaves "
+                        "the connection's write deadline set; see the report), and a scenario whose short-deadline call was "
+                        "itself overtaken by its deadline (process stall) is dropped.",
         "technique": "Coq proof (induction over read results) about a Gallina model + differential correspondence under "
                      "scripted segmentations and fault injection",
         "design_ref": "5.7",
@@ -121,7 +140,11 @@ RULES = {
            "(x20 in the thorough tier); further X lines: first Write of a call answering (n, real error kind) for n 0..16 x 15 "
            "kinds x with/without deadline (alone and inside a 5-call sequence; later Writes of the call would succeed), "
            "SetWriteDeadline failing with each kind; C lines: 2..8 goroutines on one shared Transmitter, 10 rounds (100 "
-           "thorough); streams contain blocks with length bytes 9..255 and fully random blocks. "
+           "thorough); streams contain blocks with length bytes 9..255 and fully random blocks; SF lines = every 4th S "
+           "script and all error-injection scripts again through the real fileConn over the scripted file (every second "
+           "error as *os.PathError); XF lines = every 3rd X sequence through fileConn; U lines = Transmitter + Receiver on "
+           "one connection: 600 fileConn/duplex-file schedules, 10 each on real udp / tcp / unix connections with deadlines "
+           "a few ms ahead that are allowed to pass before reception continues. "
            "non-trivial = at least one complete frame or a non-nil terminating error; distinct by line hash",
 }
 
